@@ -90,9 +90,11 @@ func (c *chatHandler) handleLegacyCommand(packet *chat.LegacyChat) error {
 			return nil
 		}
 		if !hasRun {
+			// Forward the command as the event left it (commandToRun), not the
+			// original packet text: a handler may have rewritten it via SetCommand.
 			return (&chat.Builder{
 				Protocol: c.player.Protocol(),
-				Message:  packet.Message,
+				Message:  "/" + commandToRun,
 				Sender:   c.player.ID(),
 			}).ToServer()
 		}
